@@ -121,9 +121,9 @@ class ORSet:
 
     def to_dict(self) -> dict:
         """Serialize to a plain dict."""
-        entries = {}
-        for element, tags in self._entries.items():
-            entries[str(element)] = [list(tag) for tag in sorted(tags)]
+        # A list of [element, tags] pairs keeps non-string elements intact
+        # (a dict keyed by str(element) turned 1 into "1").
+        entries = [[element, [list(tag) for tag in sorted(tags)]] for element, tags in self._entries.items()]
         return {
             "type": "ORSet",
             "node_id": self._node_id,
@@ -141,7 +141,8 @@ class ORSet:
         """
         s = cls(data["node_id"])
         s._seq = data["seq"]
-        for element, tags in data["entries"].items():
+        entries = data["entries"]
+        for element, tags in entries.items() if isinstance(entries, dict) else entries:
             s._entries[element] = {tuple(tag) for tag in tags}
         s._removed = {tuple(tag) for tag in data.get("removed", [])}
         return s
